@@ -63,7 +63,7 @@ def initStream (s : St) (m : Option Nat) (ok : Bool) : St × Bool :=
   if s.stream then (s, true)
   else
     let s := { s with attempts := s.attempts ++ [m] }
-    if ok then ({ s with stream := true, created := s.created + 1 }, true)
+    if ok then ({ s with stream := true, created := s.created + 1, initErr := false }, true)   -- (fix F21) a stale error is cleared
     else ({ s with initErr := true }, false)
 
 /-- the waitStream loop body under the lock: what the caller does next -/
